@@ -1,5 +1,5 @@
 SPECIFICATION TraceSpec
-CONSTANT Caps = {1,2,3,4,9}
+CONSTANT Caps = {0,1,2,3,4,9}
 CONSTRAINT Progress
 POSTCONDITION Accepted
 CHECK_DEADLOCK FALSE
